@@ -62,6 +62,9 @@ func corrupt(cls string, t triple, n int) triple {
 		t.sig = append(t.sig, 1)
 	case "sig_badv":
 		t.sig[64] = 9
+	case "sig_v27":
+		// the legacy form of the recovery id (27 / 28): not a signature the verifier accepts, whatever a wallet may emit
+		t.sig[64] += 27
 	case "sig_zero":
 		for i := range t.sig {
 			t.sig[i] = 0
